@@ -8,9 +8,9 @@
     [break]s at the first fraction whose local date is after the to-date.
     Vocabulary ([line_has_key], [dsum], [odflt], [line_before]): Model/ComputedSpec.v.
     Proofs: Proofs/YearlyProofs.v, Proofs/C06Proofs.v. *)
-From Coq Require Import List ZArith Bool Lia Sorted.
+From Coq Require Import List ZArith Bool Lia Sorted QArith Qabs.
 From RP2V Require Import Base.Prelude Base.Time Base.Dec Model.Types Model.Generated Model.Pipeline Model.Computed Model.ComputedSpec
-  Proofs.FilterProofs Proofs.C06Proofs Proofs.ComputedProofs Proofs.L4Examples.
+  Proofs.DecProofs Proofs.FilterProofs Proofs.C06Proofs Proofs.ComputedProofs Proofs.FiatSumProofs.
 Import ListNotations.
 Open Scope Z_scope.
 
@@ -70,11 +70,34 @@ Theorem C06_keys_distinct : forall period to_day from_year gls yl,
 Proof. exact c06_keys_distinct. Qed.
 
 (** "the per-asset grand totals therefore equal the totals of the detail table": exact for the crypto amount
-    (the fiat totals are sums of the per-line 31-digit sums above; no separate rounding bound is claimed) *)
+    (fiat figures: C06_fiat_totals below) *)
 Theorem C06_grand_total_crypto : forall period to_day from_year gls yl,
   yearly_list period to_day from_year gls = Ok yl ->
   sumZ (map y_crypto yl) = sumZ (map g_amt (filter (fun g => from_year <=? g_year g) (take_until g_day to_day gls))).
 Proof. exact c06_crypto_total. Qed.
+
+(** The fiat figures against exact arithmetic.  [to_q d] is the exact rational value of a decimal, [qsum l] the exact
+    sum of the values of [l], [EPS] = 5e-31 (half a unit in the 31st digit, relative), and [partial_mag dzero l] the sum of
+    the magnitudes of the intermediate sums of the left-to-right addition of [l] (at most length x the largest partial
+    sum): every reported figure is within EPS x that of the exact sum of its fractions ... *)
+Theorem C06_line_fiat_error : forall period to_day from_year gls yl,
+  yearly_list period to_day from_year gls = Ok yl ->
+  forall L, In L yl ->
+  let mine := filter (line_has_key period L) (take_until g_day to_day gls) in
+  (Qabs (to_q (y_fiat L) - qsum (map (fun g => odflt (g_proceeds g)) mine)) <= EPS * partial_mag dzero (map (fun g => odflt (g_proceeds g)) mine) /\
+   Qabs (to_q (y_cost L) - qsum (map (fun g => odflt (g_cost g)) mine)) <= EPS * partial_mag dzero (map (fun g => odflt (g_cost g)) mine) /\
+   Qabs (to_q (y_gain L) - qsum (map (fun g => odflt (g_gain g)) mine)) <= EPS * partial_mag dzero (map (fun g => odflt (g_gain g)) mine))%Q.
+Proof. exact c06_line_fiat_bounds. Qed.
+
+(** ... and the grand totals of the three fiat columns are within the sum of these bounds ([total_bound]) of the exact
+    totals of the detail table (fractions up to the cut, of the years shown) *)
+Theorem C06_fiat_totals : forall period to_day from_year gls yl,
+  yearly_list period to_day from_year gls = Ok yl ->
+  let counted := filter (fun g => from_year <=? g_year g) (take_until g_day to_day gls) in
+  (Qabs (qsumf (fun L => to_q (y_fiat L)) yl - qsum (map (fun g => odflt (g_proceeds g)) counted)) <= total_bound period to_day gls yl (fun g => odflt (g_proceeds g)) /\
+   Qabs (qsumf (fun L => to_q (y_cost L)) yl - qsum (map (fun g => odflt (g_cost g)) counted)) <= total_bound period to_day gls yl (fun g => odflt (g_cost g)) /\
+   Qabs (qsumf (fun L => to_q (y_gain L)) yl - qsum (map (fun g => odflt (g_gain g)) counted)) <= total_bound period to_day gls yl (fun g => odflt (g_gain g)))%Q.
+Proof. exact c06_fiat_totals. Qed.
 
 (** the from-date only hides the lines of earlier years; the lines of the remaining years are unchanged *)
 Theorem C06_from_year_only_hides_lines : forall period to_day fy fy' gls yl yl',
@@ -123,7 +146,8 @@ Proof. exact c06_to_date_refuted. Qed.
     years, two holders, a sale split into a long and a short fraction, two fractions in one line):
     [c06_example_whole], [c06_example_cut] (to-date inside 2020, from-year 2020), [c06_glsA_sorted],
     [c06_example_run] (the same through [compute]), and the instances [c06_line_is_sum_instance],
-    [c06_counts_instance] of the theorems above. *)
+    [c06_counts_instance] of the theorems above; Proofs/FiatSumProofs.v: [c06_fiat_totals_instance],
+    [c06_total_bound_small] (the bound on the grand total of the proceeds of history A is 1.5e-27). *)
 
 Print Assumptions C06_summary_of_run.
 Print Assumptions C06_line_is_sum.
@@ -133,6 +157,8 @@ Print Assumptions C06_fraction_in_exactly_one_line.
 Print Assumptions C06_no_line_without_fraction.
 Print Assumptions C06_keys_distinct.
 Print Assumptions C06_grand_total_crypto.
+Print Assumptions C06_line_fiat_error.
+Print Assumptions C06_fiat_totals.
 Print Assumptions C06_from_year_only_hides_lines.
 Print Assumptions C06_order.
 Print Assumptions C06_line_is_sum_of_all_dated_fractions.
